@@ -6,6 +6,7 @@ import LazyDs.Model.Shuffle
 import LazyDs.Model.Heap
 import LazyDs.Model.Db
 import LazyDs.Model.CopyCfg
+import LazyDs.Model.Trace
 /-
   Request families for the Layer B machines: bucket, cache, disk, reshuffle, local, heap, db, groupby.
 -/
@@ -217,5 +218,36 @@ def handleGroupBy (j : Json) : Except String Json := do
 def handleCopyCfg (j : Json) : Except String Json := do
   let classes ← (← getArr j "classes").mapM (·.getStr?)
   pure (Json.mkObj [("forwarded", Json.arr (classes.map (fun c => Json.arr #[Json.str c, strsToJson (CopyCfg.forwarded c)])).toArray)])
+
+/-! ### trace (C08) -/
+
+partial def tpipeOfJson (j : Json) : Except String Trace.TPipe := do
+  let op ← getStr j "op"
+  match op with
+  | "src" => do pure (.src (← (← getArr j "xs").mapM valOfJson))
+  | "map" => do pure (.map (← getNat j "sid") (← fnOfJson (← j.getObjVal? "f")) (← tpipeOfJson (← j.getObjVal? "p")))
+  | "filter" => do pure (.filter (← getNat j "sid") (← predOfJson (← j.getObjVal? "f")) (← tpipeOfJson (← j.getObjVal? "p")))
+  | "batch" => do pure (.batch (← getNat j "n") (← getBool j "dropLast") (← tpipeOfJson (← j.getObjVal? "p")))
+  | "unbatch" => do pure (.unbatch (← tpipeOfJson (← j.getObjVal? "p")))
+  | "concat" => do pure (.concat (← tpipeOfJson (← j.getObjVal? "p")) (← tpipeOfJson (← j.getObjVal? "q")))
+  | "zip" => do pure (.zip (← tpipeOfJson (← j.getObjVal? "p")) (← tpipeOfJson (← j.getObjVal? "q")))
+  | "slice" => do pure (.slice (← (← getArr j "sel").mapM (·.getNat?)) (← tpipeOfJson (← j.getObjVal? "p")))
+  | "localShuffle" => do
+      pure (.localShuffle (← getNat j "bs") (← (← getArr j "choices").mapM (·.getNat?))
+        (← (← getArr j "final").mapM (·.getNat?)) (← tpipeOfJson (← j.getObjVal? "p")))
+  | _ => throw s!"unknown trace op {op}"
+
+def logJ (l : Trace.Log) : Json := Json.arr (l.map (fun c => Json.arr #[natToJson c.stage, valToJson c.arg])).toArray
+
+def handleTrace (j : Json) : Except String Json := do
+  let p ← tpipeOfJson (← j.getObjVal? "p")
+  let gets ← (← getArr j "gets").mapM (·.getNat?)
+  let t := Trace.iterT menuEnv p
+  pure (Json.mkObj [
+    ("chunks", Json.arr (t.chunks.map (fun (lg, v) => Json.arr #[logJ lg, valToJson v])).toArray),
+    ("tail", logJ t.tail),
+    ("err", optErrToJson t.err),
+    ("gets", Json.arr (gets.map (fun i => let (lg, r) := Trace.getT menuEnv p i
+        Json.arr #[natToJson i, logJ lg, resToJson valToJson r])).toArray)])
 
 end LazyDs.MachDriver
